@@ -2,10 +2,12 @@
 
 META = {
  "engine": "tla-pqueue",
- "text": "TLC exhausts PQueue.tla (2-3 producers x 2 messages, all priorities/transaction assignments, capacity 2-3) for per-transaction FIFO, exactly-once, the priority rule and delivery (liveness under weak fairness); every Put/Get of the real PriorityQueue under concurrent producers is then validated against the declarative rule by TLC trace validation",
+ "text": "TLC exhausts PQueue.tla (2-3 producers x 2 messages, all priorities/transaction assignments, capacity 2-3) for per-transaction FIFO, exactly-once, the priority rule and delivery (liveness under weak fairness); every Put/Get of the real PriorityQueue under concurrent producers is then validated against the declarative rule by TLC trace validation; end to end, the messages sent for each transaction by the real transaction code (db19/checkco.go senders) must be dispatched by the real checker goroutine in the order sent, exactly once (TraceCkOrder.tla), under concurrent clients with a slowed checker (full queue)",
  "note": "trusts TLC, the placement of the PQPut/PQGet hooks inside the queue's critical section, one consumer as in checkco.go; small-scope bounds in evidence",
  "technique": "TLA+ model checking (TLC) + trace validation of hook events from the real queue",
 }
+
+import vlib
 
 def run(ctx):
     # 1. design level: exhaustive TLC on PQueue.tla (safety + liveness under fairness)
@@ -25,8 +27,27 @@ def run(ctx):
     if not res["accepted"]:
         ctx.report_rejection(trace, res)
     ctx.cov["messages_through_real_queue"] = summ.get("messages", 0)
+    # 3. end to end (db19/checkco.go): the messages sent for a transaction by the real
+    #    transaction code (CheckCo.Read/Output/Delete/Update/ReadCount/Commit/Abort, event logged
+    #    by the sending goroutine) are dispatched by the real checker goroutine in that order,
+    #    with concurrent clients and the checker slowed down so that the 8-slot queue is full
+    import os
+    drv2 = ctx.go_build("dbtran")
+    t2 = ctx.work + "/ckorder.ndjson"
+    rc, out, summ2 = ctx.driver(drv2, ["tran", t2, 12 if ctx.thorough() else 2], timeout=1500,
+                                env={"VERIF_CKORDER": "1", "VERIF_CKSLOW": "1", "VERIF_FLUSH": "0",
+                                     "VERIF_SEED": str(ctx.seed * 1000 + 17)}, name="dbtran:ckorder")
+    ck = t2 + ".ck"
+    if not os.path.exists(ck) or os.path.getsize(ck) == 0:
+        raise vlib.Infra("no checker order trace: " + out[-1500:])
+    ctx.sample_trace_lines(ck, 4, kind="real trace excerpt (checker message order)")
+    res = ctx.tlc_trace("TraceCkOrder.tla", "TraceCkOrder.cfg", ck, timeout=900)
+    if not res["accepted"]:
+        ctx.report_rejection(ck, res)
+    ctx.cov["transactions_checked_end_to_end"] = summ2.get("transactions", 0)
     ctx.assumptions += [
         "hook events PQPut/PQGet are emitted inside the critical section of Put/Get (pq.lock held)",
+        "CkSend is emitted by the sending goroutine before the message is handed to the queue, CkRecv by the checker goroutine after Get",
         "one consumer, as in db19/checkco.go",
         "TLC exhaustive bounds: see tlc_runs (2-3 producers x 2-3 messages, capacity 2-3)",
     ]
